@@ -1,0 +1,102 @@
+//go:build verif
+
+package peer
+
+import (
+	"io"
+	"log"
+	"net/netip"
+	"time"
+
+	"github.com/jech/storrent/bitmap"
+	"github.com/jech/storrent/pex"
+	"github.com/jech/storrent/protocol"
+	"github.com/jech/storrent/tor/piece"
+)
+
+// Entry points for the verification harness (/verif).  Compiled only with
+// the build tag "verif"; they let the harness drive the single-threaded
+// core of a peer synchronously, without a connection.
+
+// VerifNew builds a peer as Run would have set it up, without starting
+// the reader and writer goroutines.
+func VerifNew(proxy string, addr netip.AddrPort, result protocol.HandshakeResult,
+	pieces *piece.Pieces, info []byte, my bitmap.Bitmap,
+	torEvent chan TorEvent, torDone chan struct{}) *Peer {
+	p := New(proxy, nil, addr, false, result)
+	p.Log = log.New(io.Discard, "", 0)
+	p.torEvent = torEvent
+	p.torDone = torDone
+	p.Info = info
+	p.myBitmap = my
+	p.Pieces = pieces
+	p.writer = make(chan protocol.Message, 64)
+	p.writerDone = make(chan struct{})
+	p.reqQ = 128
+	p.time = time.Now()
+	p.writeTime = time.Now()
+	return p
+}
+
+func (p *Peer) VerifHandleMessage(m protocol.Message) error { return handleMessage(p, m) }
+func (p *Peer) VerifHandleEvent(e PeerEvent) error         { return handleEvent(p, e) }
+
+// VerifTick is the request-expiry part of Run's periodic tick.
+func (p *Peer) VerifTick() {
+	if expireRequests(p) {
+		maybeRequest(p)
+	}
+}
+func (p *Peer) VerifSendPex()              { sendPex(p) }
+func (p *Peer) VerifScheduleUpload() error { return scheduleUpload(p, true) }
+func (p *Peer) VerifStopUpload()           { p.stopUpload() }
+
+func (p *Peer) VerifWriter() chan protocol.Message { return p.writer }
+
+// VerifSetWriterDone replaces the channel that signals the writer's death.
+func (p *Peer) VerifSetWriterDone(ch chan struct{}) { p.writerDone = ch }
+
+func (p *Peer) VerifAgeRequests(d time.Duration) { p.requests.VerifAge(d) }
+
+// VerifEvents returns and clears the events that could not be delivered.
+func (p *Peer) VerifEvents() []TorEvent {
+	e := p.events
+	p.events = nil
+	return e
+}
+
+type VerifState struct {
+	InfoKnown                                       bool
+	Bitmap                                          bitmap.Bitmap
+	BitmapNil                                       bool
+	My                                              bitmap.Bitmap
+	IsSeed, Unchoked, Interested, AmUnchoking       bool
+	ShouldInterested, AmInterested, GotExtended     bool
+	PexExt, MetadataExt, DontHaveExt, UploadOnlyExt uint32
+	UploadOnly                                      bool
+	ReqQ                                            int
+	Queue, Requested                                []uint32
+	Cancelled                                       []bool
+	Upload                                          []Requested
+	Fast                                            []uint32
+	Pex, Pending, PendingDel, Sent                  []pex.Peer
+}
+
+func (p *Peer) VerifState() VerifState {
+	q, r, c := p.requests.VerifSnapshot()
+	return VerifState{
+		InfoKnown: p.Info != nil,
+		Bitmap:    p.bitmap.Copy(), BitmapNil: p.bitmap == nil, My: p.myBitmap.Copy(),
+		IsSeed: p.isSeed, Unchoked: p.unchoked != 0, Interested: p.interested != 0,
+		AmUnchoking: p.amUnchoking != 0, ShouldInterested: p.shouldInterested,
+		AmInterested: p.amInterested, GotExtended: p.gotExtended,
+		PexExt: p.pexExt, MetadataExt: p.metadataExt, DontHaveExt: p.dontHaveExt,
+		UploadOnlyExt: p.uploadOnlyExt, UploadOnly: p.uploadOnly, ReqQ: p.reqQ,
+		Queue: q, Requested: r, Cancelled: c,
+		Upload: append([]Requested(nil), p.requested...),
+		Fast:   append([]uint32(nil), p.fast...),
+		Pex:    append([]pex.Peer(nil), p.pex...), Pending: append([]pex.Peer(nil), p.pexState.pending...),
+		PendingDel: append([]pex.Peer(nil), p.pexState.pendingDel...),
+		Sent:       append([]pex.Peer(nil), p.pexState.sent...),
+	}
+}
